@@ -29,8 +29,31 @@ var skip = map[string]bool{
 	"GoString": true,
 }
 
+// sink either keeps the text or only hashes it (FNV-1a).
+type sink struct {
+	keep bool
+	sb   strings.Builder
+	h    uint64
+	n    int
+}
+
+func (k *sink) WriteString(s string) (int, error) {
+	if k.keep {
+		k.sb.WriteString(s)
+	}
+	for i := 0; i < len(s); i++ {
+		k.h ^= uint64(s[i])
+		k.h *= 1099511628211
+	}
+	k.n += len(s)
+	return len(s), nil
+}
+
+func (k *sink) Write(p []byte) (int, error) { return k.WriteString(string(p)) }
+func (k *sink) String() string              { return k.sb.String() }
+
 type Dumper struct {
-	b       strings.Builder
+	b       sink
 	seen    map[uintptr]int
 	Objects int
 	Calls   int
@@ -50,8 +73,24 @@ type Dumper struct {
 var templateAccessors = map[string]bool{"Groupings": true, "Augments": true, "Deviations": true}
 
 func New() *Dumper {
-	return &Dumper{seen: map[uintptr]int{}, MaxObjs: 200000, pkgPrefix: "github.com/freeconf/yang/"}
+	d := &Dumper{seen: map[uintptr]int{}, MaxObjs: 200000, pkgPrefix: "github.com/freeconf/yang/"}
+	d.b.keep = true
+	d.b.h = 14695981039346656037
+	return d
 }
+
+// NewHashOnly does not keep the text; use Hash() afterwards.
+func NewHashOnly() *Dumper {
+	d := New()
+	d.b.keep = false
+	return d
+}
+
+// Hash is the FNV-1a hash of everything rendered so far.
+func (d *Dumper) Hash() uint64 { return d.b.h }
+
+// Len is the number of bytes rendered.
+func (d *Dumper) Len() int { return d.b.n }
 
 // Dump renders v (normally a *meta.Module).
 func (d *Dumper) Dump(v interface{}) string {
@@ -116,26 +155,31 @@ func (d *Dumper) value(v reflect.Value, depth int, via string) {
 			return
 		}
 		n := v.Len()
-		items := make([]string, n)
-		for i := 0; i < n; i++ {
-			sub := &Dumper{seen: d.seen, MaxObjs: d.MaxObjs, pkgPrefix: d.pkgPrefix, inTemplate: d.inTemplate, root: d.root}
-			sub.Objects = d.Objects
-			sub.value(v.Index(i), depth+1, via)
-			d.Objects = sub.Objects
-			d.Calls += sub.Calls
-			d.Panics = append(d.Panics, sub.Panics...)
-			d.TemplatePanics = append(d.TemplatePanics, sub.TemplatePanics...)
-			items[i] = sub.b.String()
-		}
-		if unorderedSets[via] {
-			sort.Strings(items)
-		}
 		d.b.WriteString("[")
-		for i, it := range items {
-			if i > 0 {
+		if !unorderedSets[via] {
+			for i := 0; i < n; i++ {
+				if i > 0 {
+					d.b.WriteString(",")
+				}
+				d.value(v.Index(i), depth+1, via)
+			}
+			d.b.WriteString("]")
+			return
+		}
+		// a set: visit (and number) its members in an order that does not
+		// depend on how the library happened to build the slice
+		idx := make([]int, n)
+		keys := make([]string, n)
+		for i := range idx {
+			idx[i] = i
+			keys[i] = identOf(v.Index(i))
+		}
+		sort.SliceStable(idx, func(a, b int) bool { return keys[idx[a]] < keys[idx[b]] })
+		for k := 0; k < n; k++ {
+			if k > 0 {
 				d.b.WriteString(",")
 			}
-			d.b.WriteString(it)
+			d.value(v.Index(idx[k]), depth+1, via)
 		}
 		d.b.WriteString("]")
 	case reflect.Map:
@@ -263,4 +307,23 @@ func (d *Dumper) call(v reflect.Value, i int, name string, depth int) {
 		}
 		d.value(o, depth, name)
 	}
+}
+
+// identOf returns Ident() of a value if it has one, else its printed form.
+func identOf(v reflect.Value) (s string) {
+	defer func() {
+		if recover() != nil {
+			s = "?"
+		}
+	}()
+	for v.Kind() == reflect.Interface {
+		v = v.Elem()
+	}
+	if m := v.MethodByName("Ident"); m.IsValid() && m.Type().NumIn() == 0 {
+		return m.Call(nil)[0].String()
+	}
+	if v.Kind() == reflect.String {
+		return v.String()
+	}
+	return fmt.Sprint(safeInterface(v))
 }
